@@ -128,6 +128,23 @@ def range_guards(fn):
     return res
 
 
+_BITS = {"u8": 8, "u16": 16, "u32": 32, "u64": 64, "usize": 64, "u128": 128, "i8": 8, "i16": 16, "i32": 32, "i64": 64, "isize": 64, "i128": 128}
+
+
+def _lossy_cast(fn, n):
+    """An integer `as` cast that can change the value (narrower target or sign change)."""
+    if n["k"] != "assign" or n["rv"]["k"] != "cast":
+        return False
+    dst = (n["rv"].get("ty") or "").strip()
+    pl = lib.operand_place(n["rv"].get("op") or {})
+    src = fn.locals[pl["l"]]["ty"].strip() if pl is not None and not pl["p"] else None
+    if dst not in _BITS or src not in _BITS:
+        return False
+    if _BITS[dst] < _BITS[src]:
+        return True
+    return (dst[0] != src[0]) and not (src[0] == "u" and _BITS[dst] > _BITS[src])
+
+
 def run(ctx, prog, res):
     for t in TYPES:
         prog.adt(t)
@@ -166,10 +183,18 @@ def run(ctx, prog, res):
         for pos, atom, body, bb, t in wire_atoms(prog, w, "w"):
             if atom[0] != "prim":
                 continue
-            mods = [n for n in flow.deep_origin_calls(body, t["args"][0], depth=3) if n["k"] == "assign" and n["rv"]["k"] in ("bin", "un")]
+            mods = [n for n in flow.deep_origin_calls(body, t["args"][0], depth=3) if n["k"] == "assign" and (n["rv"]["k"] in ("bin", "un") or _lossy_cast(body, n))]
             srcs = flow.origin_fields(body, t["args"][0]) + [x for c in flow.origin_calls(body, t["args"][0]) for a in c["args"] for x in flow.origin_fields(body, a)]
             r1.check(not mods and any(a == ty for a, _, _ in srcs), {"type": ty, "writes": atom[1], "from": [n for _, _, n in srcs]}, "C15.R1:wvalue:%s:%s" % (ty, atom[1]),
-                     "%s::serialize transforms the value before writing it (%s)" % (ty, [m["rv"]["op"] for m in mods]), lib.where_of(body, t))
+                     "%s::serialize transforms the value before writing it (%s)" % (ty, [m["rv"].get("op") if isinstance(m["rv"].get("op"), str) else "narrowing cast to %s" % m["rv"].get("ty") for m in mods]), lib.where_of(body, t))
+        # no narrowing integer cast anywhere in the (tiny) writer and reader bodies
+        for role, fbody in (("serialize", w), ("deserialize", r)):
+            for x in prog.with_closures(fbody.id):
+                fx = prog.fns[x]
+                for bb_, blk in fx.live_blocks():
+                    for st_ in blk["stmts"]:
+                        if _lossy_cast(fx, st_):
+                            r1.fail("C15.R1:cast:%s:%s:%s" % (ty, role, st_["rv"].get("ty")), "%s::%s narrows an integer with `as %s`: a value that does not fit is silently changed on the wire" % (ty, role, st_["rv"].get("ty")), lib.where_of(fx, st_))
         # reader side: aggregate operands come straight from the decoded atoms
         for bb, s in r.stmts():
             if s["k"] == "assign" and s["rv"]["k"] == "agg" and s["rv"].get("adt") == ty:
@@ -321,7 +346,78 @@ def run(ctx, prog, res):
                 bad = [n for n in names if re.search(r"core::iter::traits::iterator::Iterator::\w+$|::iter$|::skip$", n) and not allowed.search(n)]
                 r5.check(not bad, {"fn": f.id, "zip_operands_built_by": names}, "C15.R5:%s" % f.id,
                          "a sequence is filtered/reshaped (%s) before being zipped with its labels in %s" % (bad, f.id), lib.where_of(f, t))
-    r5.floor(3)
+    # both sides of a zip have the same length, or one of them is unbounded: a shorter label range
+    # silently drops the last slots
+    import terms
+
+    def seq_len(f, node):
+        """Length of a sequence term: linear form, "inf", or None (unknown)."""
+        k = node[0]
+        if k == "agg" and node[1] == "RangeFrom":
+            return "inf"
+        if k == "agg" and node[1] in ("Range", "RangeInclusive"):
+            d = dict(node[2])
+            a, b = terms.linear(d.get("start", ("int", 0))), terms.linear(d.get("end", ("int", 0)))
+            if a is None or b is None:
+                return None
+            out = terms.lin_sub(b, a)
+            if node[1] == "RangeInclusive":
+                out[1] = out.get(1, 0) + 1
+            return out
+        if k == "app":
+            name = node[1].split("::")[-1]
+            if node[1] == "RangeInclusive::new" and len(node[2]) == 2:
+                a, b = terms.linear(node[2][0]), terms.linear(node[2][1])
+                if a is None or b is None:
+                    return None
+                out = terms.lin_sub(b, a)
+                out[1] = out.get(1, 0) + 1
+                return out
+            if name in ("iter", "into_iter", "iter_mut", "by_ref", "copied", "cloned", "enumerate") and node[2]:
+                return seq_len(f, node[2][0])
+            if name == "skip" and len(node[2]) == 2:
+                a, b = seq_len(f, node[2][0]), terms.linear(node[2][1])
+                if a in (None, "inf") or b is None:
+                    return a
+                return terms.lin_sub(a, b)
+            if name == "index" and len(node[2]) == 2 and node[2][1][0] == "agg" and node[2][1][1] == "RangeFrom":
+                a, b = seq_len(f, node[2][0]), terms.linear(dict(node[2][1][2])["start"])
+                if a in (None, "inf") or b is None:
+                    return None
+                return terms.lin_sub(a, b)
+        if k == "var":
+            # a field holding a fixed-size array
+            m_ = re.fullmatch(r"p1\.(\w+)", node[1])
+            if m_ and f.impl and f.impl.get("self_adt") in prog.adts:
+                for v_ in prog.adts[f.impl["self_adt"]]["variants"]:
+                    for fd in v_["fields"]:
+                        mm = re.fullmatch(r"\[.*; (\d+)\]", fd["ty"])
+                        if fd["name"] == m_.group(1) and mm:
+                            return {1: int(mm.group(1))}
+            return {"len(%s)" % node[1]: 1}
+        return None
+
+    n_zip = 0
+    for f in prog.fns.values():
+        if f.crate != lib.CC:
+            continue
+        for bb, t in f.calls():
+            if not flow.call_names(t)[0].endswith("Iterator::zip"):
+                continue
+            n_zip += 1
+            shs = [flow.shape(f, a, depth=10) for a in t["args"]]
+            try:
+                lens = [seq_len(f, terms.parse(x)) for x in shs]
+            except terms.TermError:
+                lens = [None, None]
+            if "inf" in lens or None in lens:
+                r5.ok({"fn": f.id, "zip_lengths": ["unbounded" if x == "inf" else ("unknown" if x is None else x) for x in lens]})
+                continue
+            diff = terms.lin_sub(lens[0], lens[1])
+            diff = {key_: c for key_, c in diff.items() if c != 0}
+            r5.check(not diff, {"fn": f.id, "zip_lengths": "equal", "length": {str(k_): v_ for k_, v_ in lens[0].items()}}, "C15.R5:length:%s" % f.id,
+                     "the two sides of a zip in %s have different lengths (%s vs %s): the longer side's last elements are never looked at" % (f.id, shs[0], shs[1]), lib.where_of(f, t))
+    r5.floor(6)
 
     # W --------------------------------------------------------------------------------------
     witness.run_doctests(ctx, prog, res, "C15.W", "the representation cannot be built or read from outside the crate; twins compile", "c15", floor=4)
